@@ -30,6 +30,11 @@ type Sch struct {
 	Kind string `json:"kind"` // exempt | max | tb
 	A    int32  `json:"a,omitempty"`
 	B    int32  `json:"b,omitempty"`
+	// cluster-wide variant: strategy "" | local | globalAllocate | globalCount, and the global limit
+	// (global max in flight, or global qps / burst), always >= the local one. GA == 0: no global limit.
+	Strategy string `json:"strategy,omitempty"`
+	GA       int32  `json:"globalA,omitempty"`
+	GB       int32  `json:"globalB,omitempty"`
 }
 
 type Pol struct {
@@ -141,9 +146,16 @@ func (v *Ver) Build(m *material) *proxyv1alpha1.UpstreamCluster {
 			fs.Exempt = &proxyv1alpha1.ExemptFlowControlSchema{}
 		case "max":
 			fs.MaxRequestsInflight = &proxyv1alpha1.MaxRequestsInflightFlowControlSchema{Max: s.A}
+			if s.GA > 0 {
+				fs.GlobalMaxRequestsInflight = &proxyv1alpha1.MaxRequestsInflightFlowControlSchema{Max: s.GA}
+			}
 		case "tb":
 			fs.TokenBucket = &proxyv1alpha1.TokenBucketFlowControlSchema{QPS: s.A, Burst: s.B}
+			if s.GA > 0 {
+				fs.GlobalTokenBucket = &proxyv1alpha1.TokenBucketFlowControlSchema{QPS: s.GA, Burst: s.GB}
+			}
 		}
+		fs.Strategy = proxyv1alpha1.LimitStrategy(s.Strategy)
 		c.Spec.FlowControl.Schemas = append(c.Spec.FlowControl.Schemas, fs)
 	}
 	for _, p := range v.Policies {
